@@ -568,6 +568,9 @@ class _ChainedRunnerIterator(Iterable[_ValueT]):
         with_result=self._with_result,
         with_agg_state=self._with_agg,
         with_agg_result=self._with_agg_result,
+        # Non-empty when there is aggregation so that the recovered iterator
+        # also returns the AggregateResult at the end.
+        state=self.agg_state,
     )
 
 
